@@ -122,6 +122,7 @@ func init() {
 			"non-trivial = at least one context switch happened while the leaving task was inside a cache operation; distinct = distinct SHA-256 of the full event log (a lower bound is counted through a bitmap)",
 		Real: []string{"primitives/ed25519/extra/cache (lru.go, cache.go; statement yields spliced in, sync->simsync)", "ed25519.NewExpandedPublicKey", "container/list"},
 		Stub: []string{"goroutine scheduler (rt: serial token hand-off)", "sync.Mutex blocking (simsync: TryLock + park)"},
+		Init: func(e *Env) error { return model.LRUSelfTest() },
 		Run:  runC18A,
 	})
 }
